@@ -34,3 +34,5 @@ func (h *history) sentinel() (<-chan error, func()) {
 func lockTree(rate.Limiter)          {}
 func unlockTree(rate.Limiter)        {}
 func tickConsumed(rate.Limiter) bool { return true }
+func rlockTree(rate.Limiter)         {}
+func runlockTree(rate.Limiter)       {}
